@@ -10,6 +10,7 @@ import (
 
 func main() {
 	bad := 0
+	zsel.Drop = csched.Drop
 	for _, sc := range zsel.Scenarios {
 		x := &csched.Explorer{PBound: sc.P, EBound: sc.E, Opts: csched.Options{HashStates: true}}
 		var obs []string
@@ -29,6 +30,10 @@ func main() {
 			return true
 		})
 		fmt.Printf("%s: executions=%d distinct outcomes=%d truncated=%v\n", sc.Name, x.Executions, len(outcomes), x.Truncated)
+		if len(outcomes) < sc.MinOutcomes {
+			bad++
+			fmt.Println("FAIL", sc.Name, "only", len(outcomes), "distinct outcomes, want", sc.MinOutcomes)
+		}
 	}
 	if err := csched.SelfTest(); err != nil {
 		bad++
